@@ -16,9 +16,10 @@ CHECKS = {
             "random or constant bytes) to one of the 14 decoders through the simulated compressed-data source, via the "
             "decoder API and via the per-type init/read callbacks on exact-size heap blocks; structured block/table headers with boundary "
             "values in count and single-code fields for the static-Huffman family and -pm2-; ASan/UBSan silence and "
-            "'read returns at most k' are the oracle. Sampling of a corruption neighbourhood, not a proof.",
+            "'read returns at most k' are the oracle; one run in five has the source answer at most 1-3 bytes per request (S-SHORT), one in five keeps a "
+            "second decoder of the same method alive and releases it with its source half-way. Sampling of a corruption neighbourhood, not a proof.",
             "Trusted: ASan + UBSan(bounds,null,pointer-overflow,...) see every invalid access except overflows that stay "
-            "inside one allocation and are not statically bounded arrays; the source never answers short mid-stream.",
+            "inside one allocation and are not statically bounded arrays.",
             "DESIGN.md 7 C09"),
     "C14": ("exploration",
             TECH + "seeded search over read-size histories, monitor attach points, stream faults and end-of-data "
@@ -27,7 +28,8 @@ CHECKS = {
             "history, monitor attach point); the history run must agree with a single maximal read of the same "
             "stream, get_length/get_crc are compared with an independent bitwise CRC-16/ARC after every call, the "
             "monitor sequence is checked; unanswered request bytes are poisoned differently in the two runs so use of "
-            "bytes the source never returned shows up deterministically.",
+            "bytes the source never returned shows up deterministically; one run in four keeps a companion decoder of the same method on another "
+            "stream alive, reads it in between and releases it at a seeded point (each must yield what it yields alone).",
             "Trusted: the reference run is the same library (history-invariance oracle, no plaintext ground truth); "
             "declared length capped at 1 MiB.",
             "DESIGN.md 7 C14"),
@@ -53,7 +55,8 @@ CHECKS.update({
             "re-presentation per policy, deferred-symlink order, sticky end and reader independence under interleaving are model rules; a third of "
             "the runs repeat every history alone on a fresh filesystem and require identical observations; injected skip failures may end the "
             "archive early once, nothing else; extraction meets failing system calls and objects in the way (success is demanded only when the "
-            "filesystem refused nothing); the input may end or fail at an arbitrary offset (reference = what the archive yields up to there).",
+            "filesystem refused nothing); the input may end or fail at an arbitrary offset (reference = what the archive yields up to there); "
+            "readers may open their archive by name (the library's own FILE and buffer), several at a time.",
             "Trusted: H/B/V of the model come from the same library's canonical traversal; SimFS semantics (validated against the kernel); "
             "state shared only inside seam-free stretches is not reachable by the baton schedule.",
             "DESIGN.md 7 C15, appendix D"),
@@ -65,7 +68,8 @@ CHECKS.update({
             "archive read from a seekable file. Prefix bytes are filtered by an independent scanner written from the statement. "
             "Injected stream faults (failing skip, read error): the headers returned must be a prefix of the reference sequence; stored "
             "members containing complete small members ('ghosts'); declared packed sizes up to 2^32-1 incl. values that wrap to a negative "
-            "seek; near-miss markers and signatures in the prefix; 'lha CMD ARCHIVE' vs 'lha CMD -' (pipe, seekable stdin).",
+            "seek; near-miss markers and signatures in the prefix; sources the caller has partly consumed before handing them over; "
+            "'lha CMD ARCHIVE' vs 'lha CMD -' (pipe, seekable stdin).",
             "Sources answer short only at end of input; pipes are non-seekable cookie streams; prefixes are a subset of the allowed "
             "ones (filler never contains '-' or 'L').",
             "DESIGN.md 7 C16"),
